@@ -18,7 +18,7 @@ PROPS = {
         assumptions=["snapshot total = sum of shares (createNewSnapshot builds it so; C10 proves it for the snapshot model)"],
     ),
     "C01": dict(
-        lean_modules=["PalomaModel.Props.C01", "PalomaModel.Props.Consts.Bridge"], gen=["Atomicity.lean", "ConstTable.lean"],
+        lean_modules=["PalomaModel.Props.C01", "PalomaModel.Props.Consts.Bridge", "PalomaModel.Props.Translated.C01"], gen=["Atomicity.lean", "ConstTable.lean", "Translated.lean"],
         harness_test="TestBridge", env={"VERIF_PROP": "C01"},
         n_quick=120, n_thorough=1500, thorough_seeds=8, timeout_quick=900,
         spec_ops=["bind", "sentunder", "paidin"],
